@@ -154,3 +154,40 @@ def auditDump (H : Bytes → Bytes) (vs : List (Nat × OTree Bytes Bytes)) (fast
           let expect := Facts.fastStorageVersionValue ++ Facts.fastStorageVersionDelimiter ++ toString latest
           if labelOf d != some expect then s!"fast-index label is not {expect}" else "ok"
 end Iavl
+
+namespace Iavl
+open Std
+/-! ### the independent encoder (C13, direction "model writes, library reads") -/
+
+/-- assign node keys in pre-order: the root gets `(v,1)` if it was written at `v`, else `(u,0)` (the
+    place of a re-keyed root); every other node of version `u` gets the next nonce ≥ 2 of `u`.
+    Returns the records and the counters. -/
+def encodeNodes (H : Bytes → Bytes) (isRoot : Bool) (v : Nat) :
+    Node Bytes Bytes → List (Nat × Nat) → (Nat × Nat) × KVPairs × List (Nat × Nat)
+  | .leaf k val ver, ctr =>
+    let u := ver.getD v
+    let (nonce, ctr') : Nat × List (Nat × Nat) :=
+      if isRoot then ((if u = v then 1 else 0), ctr)
+      else
+        let n := ((ctr.find? (·.1 == u)).map (·.2)).getD 2
+        (n, (u, n + 1) :: ctr.filter (·.1 != u))
+    ((u, nonce), [(physKey u nonce, encNode (.leaf 1 k val))], ctr')
+  | .inner k h sz ver l r, ctr =>
+    let u := ver.getD v
+    let (nonce, ctr1) : Nat × List (Nat × Nat) :=
+      if isRoot then ((if u = v then 1 else 0), ctr)
+      else
+        let n := ((ctr.find? (·.1 == u)).map (·.2)).getD 2
+        (n, (u, n + 1) :: ctr.filter (·.1 != u))
+    let ((lv, ln), lrecs, ctr2) := encodeNodes H false v l ctr1
+    let ((rv, rn), rrecs, ctr3) := encodeNodes H false v r ctr2
+    let hash := hashNode H v (.inner k h sz ver l r)
+    ((u, nonce), (physKey u nonce, encNode (.inner h sz k hash (.new lv ln) (.new rv rn))) :: (lrecs ++ rrecs), ctr3)
+
+/-- a database image holding exactly version `v` with tree `t` -/
+def encodeVersion (H : Bytes → Bytes) (v : Nat) : OTree Bytes Bytes → KVPairs
+  | none => [(physKey v 1, [])]
+  | some t =>
+    let ((u, nonce), recs, _) := encodeNodes H true v t []
+    if u = v then recs else (physKey v 1, physKey u nonce) :: recs
+end Iavl
